@@ -109,7 +109,11 @@ pub fn run_pipeline(src: &str, solve: bool) -> WorkerAnswer {
             Err((format!("err:{}", variant_of(&b.trim_start_matches('['))), cut(&format!("{} | {} | {}", a, b, c.len()))))
         }
     });
-    let slow_parse = t0.elapsed() > Duration::from_millis(300);
+    // the String-returning wrappers (which re-parse the text) are skipped for inputs whose PARSE is expensive; decided
+    // from the text alone (nesting depth), never from a clock, so that the reported stages do not depend on machine load
+    let (pd, bd, _) = crate::props::c18::depths(src);
+    let slow_parse = pd >= 8 || bd >= 12;
+    let _ = t0;
     let Some(pre) = pre else { ans.stages = run.out; return ans };
     // ---- format
     run.stage("format", || {
@@ -211,6 +215,18 @@ pub fn dispatch(args: &[String]) -> bool {
 }
 
 // ------------------------------------------------------------------------------------ parent side
+/// user + system CPU time of a process (Linux /proc/<pid>/stat fields 14, 15; clock ticks of 1/100 s);
+/// unknown → "infinitely much", i.e. the plain wall-clock rule applies
+fn cpu_time(pid: u32) -> Duration {
+    let stat = match std::fs::read_to_string(format!("/proc/{}/stat", pid)) { Ok(s) => s, Err(_) => return Duration::MAX };
+    let rest = match stat.rfind(')') { Some(i) => &stat[i + 1..], None => return Duration::MAX };
+    let f: Vec<&str> = rest.split_whitespace().collect();
+    match (f.get(11).and_then(|x| x.parse::<u64>().ok()), f.get(12).and_then(|x| x.parse::<u64>().ok())) {
+        (Some(u), Some(s)) => Duration::from_millis((u + s) * 10),
+        _ => Duration::MAX,
+    }
+}
+
 #[derive(Serialize, Clone, Debug, Default)]
 pub struct RunResult {
     pub stages: Vec<StageRes>,
@@ -269,7 +285,11 @@ impl Pool {
                 let _ = writeln!(stdin, "{}", req); let _ = stdin.flush();
             }
         }
-        let deadline = t0 + self.timeout;
+        let mut deadline = t0 + self.timeout;
+        // the worker is started through `sh -c "ulimit …; exec …"`: the pid is the worker's after the exec
+        let pid = self.child.as_ref().map(|c| c.0.id()).unwrap_or(0);
+        let cpu0 = cpu_time(pid);
+        let mut extensions = 0;
         loop {
             let now = Instant::now();
             let left = if deadline > now { deadline - now } else { Duration::from_millis(0) };
@@ -282,7 +302,16 @@ impl Pool {
                     }
                 }
                 Err(RecvTimeoutError::Timeout) => {
-                    res.fatal = Some(("hang".into(), stage.clone(), format!("no answer within {} ms", self.timeout.as_millis())));
+                    // a hang is a worker that BURNED the limit: on a loaded machine the wall clock runs out first, so the
+                    // wait is extended while the consumed CPU time stays below 80 % of the limit (at most 20 times)
+                    let now_cpu = cpu_time(pid);
+                    let used = if cpu0 == Duration::MAX || now_cpu == Duration::MAX { Duration::MAX } else { now_cpu.checked_sub(cpu0).unwrap_or(Duration::MAX) };
+                    if used < self.timeout.mul_f64(0.8) && extensions < 20 {
+                        extensions += 1;
+                        deadline = Instant::now() + (self.timeout - used).max(Duration::from_millis(200));
+                        continue;
+                    }
+                    res.fatal = Some(("hang".into(), stage.clone(), format!("no answer within {} ms of CPU time", self.timeout.as_millis())));
                     self.kill();
                     break;
                 }
